@@ -148,6 +148,13 @@ type EmbTyped struct {
 	Extra string
 }
 
+// c20ErrHolder has zero-argument methods whose one result is an error value: the value of such an attribute is that error
+// (it prints as its text), like any other method result
+type c20ErrHolder struct{ Name string }
+
+func (h c20ErrHolder) Err() error   { return fmt.Errorf("disk full on %s", h.Name) }
+func (h *c20ErrHolder) PErr() error { return fmt.Errorf("pointer disk full on %s", h.Name) }
+
 type c20M1Ptr *M1
 type c20Emb1Ptr *Emb1
 
@@ -175,6 +182,7 @@ func c20Family() []c20Item {
 		{"Emb1", e1, sNames, "struct"}, {"*Emb1", &e1, sNames, "struct"}, {"Emb2", e2, sNames, "struct"}, {"*Emb2", &e2, sNames, "struct"}, {"Deep2", d2, sNames, "struct"}, {"*Deep2", &d2, sNames, "struct"},
 		{"Shadow", sh, sNames, "struct"}, {"PEmb", pe, sNames, "struct"}, {"*PEmb", &pe, sNames, "struct"}, {"PEmbNil", pn, sNames, "struct"}, {"*PEmbNil", &pn, sNames, "struct"},
 		{"M1", m1, sNames, "struct"}, {"*M1", &m1, sNames, "struct"}, {"M2", m2, sNames, "struct"}, {"*M2", &m2, sNames, "struct"}, {"EmbM", em, sNames, "struct"}, {"*EmbM", &em, sNames, "struct"},
+		{"ErrHolder", c20ErrHolder{Name: "eh"}, []string{"Name", "Err", "Missing"}, "struct"}, {"*ErrHolder", &c20ErrHolder{Name: "peh"}, []string{"Name", "Err", "PErr"}, "struct"},
 		{"nil*A1", nilA1, []string{"Name", "Count"}, "struct"}, {"named-ptr-M1", c20M1Ptr(&m1), sNames, "struct"}, {"named-ptr-Emb1", c20Emb1Ptr(&e1), sNames, "struct"},
 		{"map-iface", map[string]interface{}{"Name": "mi.Name", "k": "mi.k", "Count": 2101, "a b": "mi.ab"}, []string{"Name", "k", "Count", "Missing", "a b"}, "map"},
 		{"map-string", map[string]string{"Name": "ms.Name", "k": "ms.k"}, []string{"Name", "k", "Missing"}, "map"},
